@@ -104,14 +104,14 @@ func (z *ZodLazy[T]) Parse(input any, ctx ...*core.ParseContext) (T, error) {
 		// convertResult wraps the default in a pointer when T is *any (Optional/Nilable lazies);
 		// a plain assertion to T panicked there.
 		if in.DefaultValue != nil {
-			return z.convertResult(in.DefaultValue), nil
+			return z.convertResult(engine.CloneDefaultValue(in.DefaultValue)), nil
 		}
 		if in.DefaultFunc != nil {
 			return z.convertResult(in.DefaultFunc()), nil
 		}
 		switch {
 		case in.PrefaultValue != nil:
-			input = in.PrefaultValue
+			input = engine.CloneDefaultValue(in.PrefaultValue)
 		case in.PrefaultFunc != nil:
 			input = in.PrefaultFunc()
 		case in.Optional || in.Nilable:
